@@ -104,3 +104,38 @@ Print Assumptions C10_retrieval_token_invariant_unconditional.
 
 Example C10_fresh_edge_retrieval_tokens_ok : forall k m c, StoreBTokG.TokG (StoreB.init k m c).
 Proof. exact StoreBTokG.init_tokg. Qed.
+
+(* Tie B: the withdrawal loops of the node processes, re-read from nodes/*.py on every run (theories/Factory/TieCommit.v): each of
+   them cancels exactly the requests other than the chosen one, in edge order -- which is what the model's [cancel_others] does
+   (C10_model_withdrawal_is_all_others), so the two theorems above speak about what the source does.  A loop that also changes
+   the list it walks is refused by the translator and breaks this obligation. *)
+From FV Require SrcFragments TieCommit.
+Theorem C10_withdrawal_loops_regenerated :
+  forall l x, NoDup (map SrcFragments.ev_id l) ->
+  let spec := filter (fun t => negb (Nat.eqb t (SrcFragments.ev_id x))) (map SrcFragments.ev_id l) in
+  map SrcFragments.ev_id (SrcFragments.Machine_worker_withdraw l x) = spec /\
+  map SrcFragments.ev_id (SrcFragments.Splitter_worker_withdraw l x) = spec /\
+  map SrcFragments.ev_id (SrcFragments.Combiner_worker_withdraw l x) = spec /\
+  map SrcFragments.ev_id (SrcFragments.Source_behaviour_withdraw l x) = spec /\
+  map SrcFragments.ev_id (SrcFragments.Machine_behaviour_withdraw l x) = spec /\
+  map SrcFragments.ev_id (SrcFragments.Splitter_behaviour_withdraw l x) = spec /\
+  map SrcFragments.ev_id (SrcFragments.Sink_behaviour_withdraw l x) = spec.
+Proof.
+  intros l x H spec. repeat split.
+  - exact (TieCommit.Machine_worker_withdraw_src l x H).
+  - exact (TieCommit.Splitter_worker_withdraw_src l x H).
+  - exact (TieCommit.Combiner_worker_withdraw_src l x H).
+  - exact (TieCommit.Source_behaviour_withdraw_src l x H).
+  - exact (TieCommit.Machine_behaviour_withdraw_src l x H).
+  - exact (TieCommit.Splitter_behaviour_withdraw_src l x H).
+  - exact (TieCommit.Sink_behaviour_withdraw_src l x H).
+Qed.
+Print Assumptions C10_withdrawal_loops_regenerated.
+
+Theorem C10_model_withdrawal_is_all_others :
+  forall w es ts keep put,
+  Factory.cancel_others w es ts keep put =
+  fold_left (fun w et => if put then World.e_cancel_put w (fst et) (snd et) else World.e_cancel_get w (fst et) (snd et))
+            (filter (fun et => negb (Nat.eqb (snd et) keep)) (combine es ts)) w.
+Proof. exact TieCommit.model_withdrawal_is_all_others. Qed.
+Print Assumptions C10_model_withdrawal_is_all_others.
